@@ -20,7 +20,7 @@ import (
 func init() { register("C11", "exploration", runC11) }
 
 func runC11(r *ev.Run) {
-	r.SetRule("a gluon server runs in a child process with no panic handler (a panic kills it, as in production). Hostile connections (before LOGIN, logged in, with a mailbox selected) send: grammar-generated valid commands, byte-level mutations of them (flips, cuts, inserted parens/braces/quotes/NUL/8-bit, huge numbers), numbers at the edges of int32/uint32/int64/uint64 in every numeric position, lines sent behind a LOGOUT or behind the 20th consecutive error, hand-written extremes (10^4-fold nesting, 2^32 and 2^64 numbers in sets, partials and literal sizes, 1 MiB atoms, thousands of empty lines, tag-only lines), literals that are announced and then cut off by a disconnect, and batches of pipelined lines. The client follows the protocol for literals (waits for '+'). Oracles: the child stays alive; every line that was completely sent gets exactly one completion (tagged with its tag when the tag is a plain atom, else '* BAD'), checked with a NOOP probe behind it; the connection then still answers NOOP unless the server said BYE after repeated errors; a sentinel session of another user keeps getting the same FETCH answer; after all hostile connections are gone the goroutine count returns to the start level, the heap that is live after a collection stays under 400 MiB (checked whenever RSS passes 700 MiB, hard cap 3 GiB) and ends within 300 MiB of its start and the idle server burns < 1 s CPU in 3 s. distinct = distinct (state, input family, outcome) triples")
+	r.SetRule("a gluon server runs in a child process with no panic handler (a panic kills it, as in production). Hostile connections (before LOGIN, logged in, with a mailbox selected) send: grammar-generated valid commands, byte-level mutations of them (flips, cuts, inserted parens/braces/quotes/NUL/8-bit, huge numbers), numbers at the edges of int32/uint32/int64/uint64 in every numeric position, lines sent behind a LOGOUT or behind the 20th consecutive error, complete APPENDs of messages whose address, date and MIME header fields end inside comments, quotes, brackets, groups, encoded words or nest thousands deep, hand-written extremes (10^4-fold nesting, 2^32 and 2^64 numbers in sets, partials and literal sizes, 1 MiB atoms, thousands of empty lines, tag-only lines), literals that are announced and then cut off by a disconnect, and batches of pipelined lines. The client follows the protocol for literals (waits for '+'). Oracles: the child stays alive; every line that was completely sent gets exactly one completion (tagged with its tag when the tag is a plain atom, else '* BAD'), checked with a NOOP probe behind it; the connection then still answers NOOP unless the server said BYE after repeated errors; a sentinel session of another user keeps getting the same FETCH answer; after all hostile connections are gone the goroutine count returns to the start level, the heap that is live after a collection stays under 400 MiB (checked whenever RSS passes 700 MiB, hard cap 3 GiB) and ends within 300 MiB of its start and the idle server burns < 1 s CPU in 3 s. distinct = distinct (state, input family, outcome) triples")
 	r.Assume("lines carry no CR/LF except their terminator and inside literals; 'hang' means no completion within a 60 s watchdog and is reported as inconclusive unless the child is burning CPU or a second try on a fresh connection hangs too")
 
 	conns := r.Pick(400, 6000)
@@ -464,7 +464,12 @@ func (c *c11Case) genItem() c11Item {
 		data := []byte(head + strings.Repeat("x", rng.Intn(3000)))
 
 		return c11Item{family: "cut-literal " + size, tag: tag, data: data, lines: 0, cutAt: len(data)}
-	case k < 94: // pipelined batch
+	case k < 94: // a complete APPEND whose message has hostile header fields (they are parsed on arrival and by SEARCH)
+		msg := c11HostileMessage(rng)
+		line := fmt.Sprintf("%s APPEND INBOX {%d}\r\n%s\r\n", tag, len(msg), msg)
+
+		return c11Item{family: "hostile-message", tag: tag, data: []byte(line), lines: 1}
+	case k < 97: // pipelined batch
 		n := 2 + rng.Intn(30)
 
 		var b bytes.Buffer
@@ -493,6 +498,53 @@ func (c *c11Case) genItem() c11Item {
 
 		return c11Item{family: "cut-line " + name, tag: tag, data: line, lines: 0, cutAt: cut}
 	}
+}
+
+// c11HostileMessage builds a message whose structured header fields (addresses, dates, MIME fields) are cut
+// off inside comments, quotes, angle brackets, groups, domain literals and encoded words, nest deeply or are
+// very long. No CR or LF inside a value: the literal stays a sequence of header lines.
+func c11HostileMessage(rng *rand.Rand) string {
+	frag := []string{
+		"Foo <a@b.c> (work", "(", "((((", "(a (b (c", "\"unterminated <a@b.c>", "<a@b.c", "a@[1.2.3", "group: a@b.c, c@d.e", "group: (x", "a@b.c,", "a@b.c, <", "=?utf-8?q?=C3", "=?utf-8?b?", "=?utf-8?q?abc",
+		"\\", "a@b.c \\", "(c\\", "\"q\\", strings.Repeat("(", 5000), strings.Repeat("(a", 3000) + strings.Repeat(")", 2999), strings.Repeat("a@b.c, ", 3000), strings.Repeat("<", 4000), strings.Repeat("g:", 3000),
+		"Mon, 02 Jan 2006 15:04:05 +0200 (CEST", "Mon, 02 Jan 2006 15:04:05 (", "Mon, 02 Jan (a (b 2006", "02 Jan 2006 15:04:05 +0200 \\", "Mon, 99 Jan 99999 99:99:99 +9999 (", "(only comment", "\x00", "\xff\xfe (", "a@b.c (\x00",
+		"text/plain; charset=\"utf-8", "text/plain; name*=utf-8''%", "multipart/mixed; boundary=\"", "multipart/mixed; boundary=", "message/rfc822; (", "text/plain; a=(b", ";;;;", "; =", "text/plain; charset*0*=utf-8''%E9; charset*2=x",
+	}
+	names := []string{"Sender", "Reply-To", "To", "Cc", "Bcc", "Message-Id", "In-Reply-To", "References", "Content-Type", "Content-Disposition", "Content-Transfer-Encoding", "Subject", "Resent-Date", "Received"}
+
+	var b strings.Builder
+
+	pick := func() string {
+		v := frag[rng.Intn(len(frag))]
+		if rng.Intn(3) == 0 {
+			v = frag[rng.Intn(len(frag))] + " " + v
+		}
+
+		return v
+	}
+
+	// APPEND insists on a From and a Date field (and parses From): both are always there, hostile or plain, so
+	// that the message gets as far as the parsers, and - when both are plain - into the mailbox, where SEARCH
+	// and FETCH ENVELOPE / BODYSTRUCTURE read the other fields
+	if rng.Intn(2) == 0 {
+		fmt.Fprintf(&b, "From: %s\r\n", pick())
+	} else {
+		b.WriteString("From: a@b.c\r\n")
+	}
+
+	if rng.Intn(2) == 0 {
+		fmt.Fprintf(&b, "Date: %s\r\n", pick())
+	} else {
+		b.WriteString("Date: Mon, 02 Jan 2006 15:04:05 +0000\r\n")
+	}
+
+	for _, i := range rng.Perm(len(names))[:1+rng.Intn(8)] {
+		fmt.Fprintf(&b, "%s: %s\r\n", names[i], pick())
+	}
+
+	b.WriteString("\r\nbody\r\n")
+
+	return b.String()
 }
 
 var c11LitRe = regexp.MustCompile(`\{(\d+)(\+?)\}\r\n`)
@@ -810,6 +862,10 @@ func (c *c11Case) hostileConn(idx int) {
 		out := c.sendItem(h, it)
 		c.logf("conn %d [%s] %s (%d bytes, %d line(s)) -> %v bye=%v closed=%v hung=%v abandoned=%v", idx, state, it.family, len(it.data), it.lines, out.completions, out.bye, out.closed, out.hung, out.abandoned)
 		c.r.Distinct(fmt.Sprintf("%s %s -> %s", state, strings.Fields(it.family)[0], c11OutcomeClass(out)))
+
+		if it.family == "hostile-message" {
+			c.r.Count("hostile_messages "+state+" -> "+c11OutcomeClass(out), 1)
+		}
 
 		if out.hung {
 			c.hang(idx, it, h)
